@@ -308,3 +308,47 @@ let () = register "c14" (c14_run is_ro)
 let () = register "c14master" (c14_run (fun _ -> false))
 let () = register "c14spec" (c14_run (fun name -> Dispatch.is_read_only RedisFlags.redis_read_only name))
 
+
+(* ---------------- C18: SCAN ---------------- *)
+let scan_host i = Printf.sprintf "n%05d:1" i
+let split_bar line = let parts = Str.split_delim (Str.regexp_string " | ") line in parts
+
+let () = register "c18step" (fun line ->
+  match split_bar line with
+  | [n; reqs; reps] ->
+    let nh = int_of_string n in
+    let req = parse_val (Array.of_list (S.split_on_char ' ' reqs)) (ref 0) in
+    let node_reply = parse_val (Array.of_list (S.split_on_char ' ' reps)) (ref 0) in
+    (match plan_of req with
+     | Dispatch.PScan args ->
+       (match Dispatch.scan_plan_of Tables.invalid_request_text Tables.invalid_cursor_text args (n_of_int nh) with
+        | Dispatch.ScErr t -> val_string (Resp.Err t) ^ " | "
+        | Dispatch.ScTerm -> val_string (Resp.Arr (Some [Resp.Bulk (Some [n_of_int 48]); Resp.Arr (Some [])])) ^ " | "
+        | Dispatch.ScNode (idx, body) ->
+          let sent = scan_host (int_of_n idx) ^ "=" ^ body_string body in
+          (match Dispatch.scan_reply idx node_reply with
+           | None -> "PANIC | " ^ sent
+           | Some r -> val_string r ^ " | " ^ sent))
+     | Dispatch.PLocalErr t -> val_string (Resp.Err t) ^ " | "
+     | _ -> "NOTSCAN | ")
+  | _ -> failwith "bad c18step case")
+
+let () = register "c18iter" (fun line ->
+  match split_bar line with
+  | nodes_s :: _ ->
+    let parse_node s =
+      if s = "" then [] else
+      L.map (fun e -> match S.split_on_char ':' e with
+        | [c; nx; ks] ->
+          let keys = if ks = "" then [] else L.map bytes_of_hex (S.split_on_char ',' ks) in
+          (n_of_dec c, (n_of_dec nx, keys))
+        | _ -> failwith "bad entry") (S.split_on_char '/' s) in
+    let nodes = L.map parse_node (S.split_on_char ';' nodes_s) in
+    (match Scan.iterate (nat_of_int 6000) nodes N0 with
+     | None -> "NONTERMINATING"
+     | Some (keys, hits) ->
+       Printf.sprintf "done keys=%s hits=%s steps=%d"
+         (S.concat "," (L.map hex_of_bytes keys))
+         (S.concat "," (L.map (fun (i, c) -> dec_of_n i ^ ":" ^ dec_of_n c) hits))
+         (L.length hits + 1))
+  | _ -> failwith "bad c18iter case")
